@@ -507,3 +507,52 @@ Proof.
     [eexists; split; [cbn; rewrite alookup_insert_eq; reflexivity | cbn; exact Hrm]
     | exists qu; eexists; split; [exact Hq|]; split; [cbn; exact Hx | cbn; auto]]).
 Qed.
+
+(* ====================== C01: hand-over from the handles ====================== *)
+
+(* a channel's mailbox is emptied in FIFO order, each buffer appended whole: the buffers
+   of one channel reach the out-buffer in the order that channel submitted them, and
+   another channel's bytes can only come before or after a whole buffer *)
+Theorem mailbox_fifo n : forall bufs fuel c s,
+  n <> 0 -> alookup n (c_slots c) = Some s -> s_mail s = map MsgSend bufs -> s_mail_tx s = true ->
+  ob_sealed (c_out c) = false -> (length bufs < fuel)%nat ->
+  exists c', chan_readable fuel n c = (OOk, c') /\
+    ob (c_out c') = ob (c_out c) ++ concat bufs /\ ob_sealed (c_out c') = false /\
+    c_phase c' = c_phase c /\ c_qs c' = c_qs c /\
+    (forall k, k <> n -> alookup k (c_slots c') = alookup k (c_slots c)) /\
+    (exists s', alookup n (c_slots c') = Some s' /\ s_mail s' = []).
+Proof.
+  induction bufs as [|b bufs IH]; intros fuel c s Hn Hl Hm Htx Hu Hf.
+  - destruct fuel as [|fuel]; [cbn in Hf; lia|]. cbn [chan_readable]. rewrite Hl. cbn in Hm. rewrite Hm, Htx.
+    exists c. rewrite app_nil_r. repeat split; try reflexivity; try exact Hu. exists s. split; [exact Hl|exact Hm].
+  - destruct fuel as [|fuel]; [cbn in Hf; lia|]. cbn [chan_readable]. rewrite Hl. cbn [map] in Hm. rewrite Hm.
+    cbn [channel_message].
+    set (c1 := push_out (set_slot c n (with_mail s (map MsgSend bufs))) b).
+    assert (Hl1 : alookup n (c_slots c1) = Some (with_mail s (map MsgSend bufs))).
+    { unfold c1, push_out, set_out, set_slot, set_slots. cbn. apply alookup_insert_eq. }
+    assert (Hu1 : ob_sealed (c_out c1) = false).
+    { unfold c1, push_out, set_out, ob_append. cbn. rewrite Hu. reflexivity. }
+    assert (Hm1 : s_mail (with_mail s (map MsgSend bufs)) = map MsgSend bufs) by (destruct s; reflexivity).
+    assert (Htx1 : s_mail_tx (with_mail s (map MsgSend bufs)) = true) by (destruct s; exact Htx).
+    assert (Hf1 : (length bufs < fuel)%nat) by (cbn in Hf; lia).
+    destruct (IH fuel c1 (with_mail s (map MsgSend bufs)) Hn Hl1 Hm1 Htx1 Hu1 Hf1)
+      as (c' & Hr & Ho & Hs & Hp & Hq & Hk & Hs').
+    exists c'. split; [exact Hr|]. split.
+      * rewrite Ho. unfold c1, push_out, set_out, ob_append. cbn. rewrite Hu. cbn. rewrite <- app_assoc. reflexivity.
+      * split; [exact Hs|]. split; [rewrite Hp; reflexivity|]. split; [rewrite Hq; reflexivity|].
+        split; [|exact Hs'].
+        intros k Hk'. rewrite (Hk k Hk'). unfold c1, push_out, set_out, set_slot, set_slots. cbn.
+        apply alookup_insert_neq. exact Hk'.
+Qed.
+
+(* a write-only STREAM event: what goes to the wire followed by what stays buffered is
+   what was buffered - at the level of the thread's state *)
+Theorem stream_write_conserves c oracle bs wr ob' rest :
+  write_to_stream (c_out c) oracle = (bs, wr, ob', rest) -> wr = WOk ->
+  exists c', handle_event c (EvStream (Some oracle) None) = (OOk, c', bs) /\
+             bs ++ ob (c_out c') = ob (c_out c) /\ ob_sealed (c_out c') = ob_sealed (c_out c) /\
+             c_slots c' = c_slots c /\ c_qs c' = c_qs c /\ c_phase c' = c_phase c.
+Proof.
+  intros H E. cbn [handle_event]. rewrite H, E. eexists. split; [reflexivity|]. cbn.
+  destruct (write_conserves H) as (Hs & Hc). rewrite E in Hc. auto.
+Qed.
